@@ -2,7 +2,11 @@
 
 package pipeline
 
-import "github.com/buildkite/go-pipeline/ordered"
+import (
+	"gopkg.in/yaml.v3"
+	"encoding/json"
+	"github.com/buildkite/go-pipeline/ordered"
+)
 
 // C11 - matrix permutation validation equals the matrix specification.
 
@@ -14,6 +18,7 @@ func init() {
 	vpRegister("c11_frame", vpH_c11_frame)
 	vpRegister("c11_parsed", vpH_c11_parsed)
 	vpRegister("c11_empty", vpH_c11_empty)
+	vpRegister("c11_marshalled", vpH_c11_marshalled)
 }
 
 // vpTuple is a dimension->value tuple kept as parallel lists (the oracle never
@@ -330,8 +335,9 @@ func vpH_c11_frame() {
 	vals := make([]string, 0, 4) // spare capacity, as lists built with append have
 	vals = append(vals, v1, v2)
 	m := &Matrix{Setup: MatrixSetup{"os": vals, "arch": {"x"}}}
-	if vpBool() {
-		m.Adjustments = MatrixAdjustments{{With: MatrixAdjustmentWith{"os": v3, "arch": "y"}, Skip: vpBool()}}
+	withAdj, skip := vpBool(), vpBool()
+	if withAdj {
+		m.Adjustments = MatrixAdjustments{{With: MatrixAdjustmentWith{"os": v3, "arch": "y"}, Skip: skip}}
 	}
 	p := MatrixPermutation{"os": vpStr(1, "a-c"), "arch": vpStr(1, "x-y")}
 	err1 := m.validatePermutation(p)
@@ -456,4 +462,35 @@ func vpH_c11_empty() {
 	}
 	err := m.validatePermutation(MatrixPermutation(p.asMap()))
 	vpAssert((err == nil) == vpMatrixSpec(mm, p), "with empty strings among the values, a permutation is accepted exactly when the specification accepts it")
+}
+
+// The verdict does not depend on what was done to the step before: a matrix
+// with a dimension that has no value list (`arch: null`) - and one with an
+// empty one - gives the same answer whether or not the step was marshalled
+// (to JSON, to YAML) first, and marshalling leaves the matrix as it was.
+func vpH_c11_marshalled() {
+	withAdj, skip := vpBool(), vpBool()
+	emptyList := vpBool()
+	mk := func() *CommandStep {
+		mm := &Matrix{Setup: MatrixSetup{"os": {"a", "b"}, "arch": nil}}
+		if emptyList {
+			mm.Setup["arch"] = []string{}
+		}
+		if withAdj {
+			mm.Adjustments = MatrixAdjustments{{With: MatrixAdjustmentWith{"os": "c", "arch": "y"}, Skip: skip}}
+		}
+		return &CommandStep{Command: "c", Matrix: mm}
+	}
+	p := MatrixPermutation{"os": []string{"a", "c", "z"}[vpInt(0, 2)], "arch": []string{"y", "x"}[vpInt(0, 1)]}
+	fresh, seen := mk(), mk()
+	snap := vpSnapshot(seen)
+	var merr error
+	if vpBool() {
+		_, merr = json.Marshal(seen)
+	} else {
+		_, merr = yaml.Marshal(seen)
+	}
+	vpAssert(merr == nil && vpUnchanged(seen, snap), "marshalling a step leaves its matrix as it was (a dimension without a value list stays without one)")
+	ef, es := fresh.Matrix.validatePermutation(p), seen.Matrix.validatePermutation(p)
+	vpAssert((ef == nil) == (es == nil), "the verdict on a permutation is the same before and after the step was marshalled")
 }
